@@ -1090,7 +1090,7 @@ func (c *Conn) handleFinish(ctx context.Context, id answerID, releaseResultCaps 
 			// the write has come back).  The remote vat may already have
 			// it and is then free to reuse the ID: give the slot up now;
 			// the returning goroutine finishes the teardown.
-			delete(c.answers, id)
+			ans.freeID()
 		}
 		c.mu.Unlock()
 		return nil
